@@ -115,6 +115,7 @@ def main(argv=None):
     ap.add_argument('--jobs', type=int, default=int(os.environ.get('VERIF_JOBS') or 0))
     ap.add_argument('--budget', type=float, default=0.0)
     ap.add_argument('--no-evidence', action='store_true')
+    ap.add_argument('--only', help='dev: run only units whose repr contains this text (never writes evidence)')
     args = ap.parse_args(argv)
     prop = args.prop
     if args.replay:
@@ -132,6 +133,9 @@ def main(argv=None):
     mod = importlib.import_module('mc.props.' + prop)
     plan = mod.plan(tier, seed)
     units = plan['units']
+    if args.only:
+        units = [u for u in units if args.only in repr(u)]
+        args.no_evidence = True
     njobs = args.jobs or min(16, os.cpu_count() or 1, max(1, len(units)))
     budget = args.budget or plan.get('budget') or BUDGET[tier]
 
